@@ -305,7 +305,10 @@ def scenario(case, tag, with_fd=True):
     if case.get("temperature"):
         L.append("temperature %r" % case["temperature"])
     L.append("restartfreq %d" % case.get("restartfreq", 0))
-    L += ["fresh", "config EOF", config_text(case), "EOF"]
+    L.append("fresh")
+    if case.get("init_step") is not None:
+        L.append("setstep %d" % case["init_step"])      # the job starts at a large absolute step number (first_step of the biases)
+    L += ["config EOF", config_text(case), "EOF"]
     if case.get("setstep") is not None:
         L.append("setstep %d" % case["setstep"])
     ev = event_lines(case)
@@ -327,8 +330,10 @@ def scenario(case, tag, with_fd=True):
         # configured with changed options, and the state is loaded into it: the measured steps run there
         pfx = state_prefix()
         L += ["show cv 1 bias 0 atomf 0", "step"]
-        L += ["save %s %s.colvars.state" % (case["restart"].get("fmt", "text"), pfx), "fresh", "config EOF", restart_config_text(case), "EOF",
-              "load %s" % pfx]
+        fmt = case["restart"].get("fmt", "text")
+        how = {"text": "load %s" % pfx, "binary": "load %s" % pfx, "textstr": "loadstr %s.colvars.state" % pfx,
+               "binarybuf": "loadbuf %s.colvars.state" % pfx}[fmt]
+        L += ["save %s %s.colvars.state" % ("binary" if fmt.startswith("binary") else "text", pfx), "fresh", "config EOF", restart_config_text(case), "EOF", how]
     # moving restraints: every measured step is run at the same step number, where centres / force constant are frozen
     fs = ["setstep %d" % case["fd_setstep"]] if case.get("fd_setstep") is not None else []
     L += ["show cv 1 bias 1 atomf 1 af 1"] + fs + ["step", "show cv 1 bias 0 atomf 0 af 0"]
@@ -493,7 +498,7 @@ def model_line(case, res=None):
         keff = lambda k0: k0
         if b.get("moving"):
             # colvarbias_restraint_centers_moving / k_moving::update, continuous: lambda = (step - first_step) / targetNumSteps
-            lam = (case["fd_setstep"] + 1) / float(b["moving"]["N"])
+            lam = float(case["fd_setstep"] + 1 - (case.get("init_step") or 0)) / float(b["moving"]["N"])
             if b["moving"].get("tk") is not None:
                 keff = lambda k0: k0 + (b["moving"]["tk"] - k0) * lam ** b["moving"].get("kexp", 1.0)
         if b["type"] in ("harmonic", "linear"):
@@ -867,7 +872,7 @@ def gen_case(r, kinds, opts):
     case = {"cell": None}
     if opts["cell"] and r.random() < 0.35:
         case["cell"] = tuple(r.choice([8.0, 16.0, 12.0]) for _ in range(3))
-    nv = 1 if r.random() < 0.7 else 2
+    nv = r.choice([1] * 13 + [2] * 5 + [3] * 2)            # up to three variables
     for attempt in range(60):
         case["atoms"] = [(r.choice(MASSES), V.dyadic(r, -2, 2, bits=3),
                           tuple(V.dyadic(r, -4, 4, bits=6) for _ in range(3))) for _ in range(n_atoms)]
@@ -899,7 +904,7 @@ def gen_case(r, kinds, opts):
                 c["exp"] = 1
                 vars_.append({"width": r.choice([1.0, 1.0, 0.5, 2.0]), "cvcs": [c], "vec": True})
                 continue
-            ncv = 1 if (not opts["poly"] or r.random() < 0.6) else 2
+            ncv = 1 if not opts["poly"] else r.choice([1] * 11 + [2] * 6 + [3] * 2 + [4])     # up to four components (the odd one inside)
             cvcs = []
             for ci in range(ncv):
                 c = gen_cvc(r, r.choice(kinds), n_atoms, opts)
@@ -916,7 +921,7 @@ def gen_case(r, kinds, opts):
     else:
         return None
     # biases
-    nb = 1 if r.random() < 0.7 else 2
+    nb = r.choice([1] * 13 + [2] * 5 + [3] * 2)            # up to three biases
     case["biases"] = []
     for bi in range(nb):
         bt = r.choice(opts["biases"])
@@ -993,7 +998,8 @@ def gen_case(r, kinds, opts):
         if kind == "meta":
             vis = [r.randrange(nv)] if (nv == 1 or r.random() < 0.5) else list(range(nv))
             b = {"type": "meta", "W": r.choice([1.0, 2.0, 0.5, 4.0]), "terms": [(i, r.choice([1.0, 4.0, 16.0, 0.5])) for i in vis]}
-            case["setstep"] = 999
+            # (hills are deposited when step % 1000 == 0: also far beyond 2^31, 2^32, 2^53 and near 2^62)
+            case["setstep"] = r.choice([999, 999, 2999999999, 4294967295999, 9007199254740999, 4611686018427386999])
             case["presteps"] = [disp(), disp()]
         else:
             i = r.choice(scal)
@@ -1007,7 +1013,9 @@ def gen_case(r, kinds, opts):
         add_history(r, case, n_atoms, opts)
     if opts.get("moving") and r.random() < opts["moving"] and not case.get("presteps") and not case.get("restart"):
         # moving restraints, evaluated at a fixed step number S <= targetNumSteps (dyadic lambda = S/N)
-        N = r.choice([1024, 512])
+        N = r.choice([1024, 512, 1000, 6, 12, 7, 5, 3])          # also targetNumSteps that are not powers of two
+        if r.random() < 0.4:
+            case["init_step"] = r.choice([2 ** 31, 2 ** 32 + 7, 2 ** 53 + 1001, 2 ** 62 - 5000])
         for b in case["biases"]:
             if b["type"] not in ("harmonic", "linear", "walls"):
                 continue
@@ -1025,7 +1033,8 @@ def gen_case(r, kinds, opts):
                 mv_["kexp"] = r.choice([1.0, 1.0, 2.0, 4.0])
             b["moving"] = mv_
             if "fd_setstep" not in case:
-                case["fd_setstep"] = r.choice([N // 4, N // 2, 3 * N // 4, N]) - 1      # lambda = (S + 1)/N is dyadic
+                S_ = r.choice([N // 4, N // 2, 3 * N // 4, N]) if N >= 512 else r.randint(1, N)
+                case["fd_setstep"] = (case.get("init_step") or 0) + S_ - 1
     return case
 
 
@@ -1050,7 +1059,7 @@ def add_restart(r, case):
             b["k"] = other(b["k"], [1.0, 2.0, 0.5, 10.0])
         elif b["type"] == "hist":
             b["k"] = other(b["k"], [1.0, 10.0, 4.0])
-    case["restart"] = {"biases": B, "fmt": r.choice(["text", "binary"])}
+    case["restart"] = {"biases": B, "fmt": r.choice(["text", "binary", "textstr", "binarybuf"])}
 
 
 def add_history(r, case, n_atoms, opts):
@@ -1696,8 +1705,7 @@ def gen_unmodelled(r, n):
                 confB = confB.replace(old_, new_)
             if name == "meta_nogrid" and r.random() < 0.5:
                 confB = confB.replace("width 0.5", "width 1.0")
-            c["restart"] = {"raw_config": confB, "fmt": r.choice(["text", "binary"])}
-            c["restartfreq_override"] = 1001
+            c["restart"] = {"raw_config": confB, "fmt": r.choice(["text", "binary", "textstr", "binarybuf"])}
         if script:
             c["script"] = script
         if files:
@@ -1735,7 +1743,7 @@ def gen_unmodelled(r, n):
         if pre == "shift2":
             # hills are deposited when step_absolute % 1000 == 0 and step_relative > 0: start at step 999, so that the
             # second pre-step (at a slightly different configuration) deposits the only hill / kernel
-            c["setstep"] = 999
+            c["setstep"] = r.choice([999, 999, 2999999999, 4294967295999, 9007199254740999, 4611686018427386999])
             c["temperature"] = 300.0
             c["restartfreq"] = 100000     # OPES divides by the restart frequency (0 is the subject of C10, not of this check)
             if c.get("restartfreq_override"):
